@@ -284,7 +284,7 @@ mod verif_segtree {
         let mut k = 0;
         while k < 3 {
             if k > m {
-                assert!(a[k] > a[m], "SELFTEST: must be refuted");
+                assert!(a[k] > a[m]); // SELFTEST: must be refuted
             }
             k += 1;
         }
